@@ -98,3 +98,27 @@ impl LuaIndex for LuaOperatorIndex {
         self.in_filed_operator_map.clear();
     }
 }
+
+#[cfg(feature = "verif-hooks")]
+impl LuaOperatorIndex {
+    /// verif hook H1: entry counts of every map of this index
+    pub fn verif_sizes(&self, out: &mut Vec<(String, usize)>) {
+        out.push(("operator.operators".into(), self.operators.len()));
+        out.push(("operator.type_operators_map".into(), self.type_operators_map.len()));
+        out.push((
+            "operator.type_operators_map.sum".into(),
+            self.type_operators_map
+                .values()
+                .map(|m| m.values().map(|v| v.len()).sum::<usize>())
+                .sum(),
+        ));
+        out.push((
+            "operator.in_filed_operator_map".into(),
+            self.in_filed_operator_map.len(),
+        ));
+        out.push((
+            "operator.in_filed_operator_map.sum".into(),
+            self.in_filed_operator_map.values().map(|v| v.len()).sum(),
+        ));
+    }
+}
